@@ -23,7 +23,9 @@
 #include <yaclib/runtime/fair_thread_pool.hpp>
 #include <yaclib_std/atomic>
 #include <yaclib_std/condition_variable>
+#include <yaclib_std/chrono>
 #include <yaclib_std/mutex>
+#include <yaclib_std/shared_mutex>
 #include <yaclib_std/thread>
 
 #include <cstdio>
@@ -99,7 +101,7 @@ yaclib::Future<> WithMutex(yaclib::IExecutor& e, yaclib::Mutex<>& m, int& c, int
 // one program step; returns a small result that goes into the event log
 int Step(const int* r) {
   const int a = r[1], b = r[2];
-  switch (r[0] % 5) {
+  switch (r[0] % 6) {
     case 0: {  // pool + strand
       yaclib::FairThreadPool tp{static_cast<std::uint64_t>(1 + a % 3)};
       auto strand = yaclib::MakeStrand(&tp);
@@ -160,9 +162,56 @@ int Step(const int* r) {
       }
       return order;
     }
+    case 5: {  // timed locks: one fiber holds, the others give up after a (virtual) timeout or get in
+      yaclib_std::timed_mutex tm;
+      yaclib_std::shared_timed_mutex stm;
+      yaclib_std::recursive_timed_mutex rtm;
+      int got = 0;
+      std::vector<yaclib_std::thread> ts;
+      ts.emplace_back([&] {
+        std::lock_guard l1{tm};
+        std::lock_guard l2{stm};
+        std::lock_guard l3{rtm};
+        yaclib_std::this_thread::sleep_for(std::chrono::nanoseconds(20 * (a % 20)));
+      });
+      for (int i = 0; i < 1 + b % 3; ++i) {
+        ts.emplace_back([&, i] {
+          const auto d = std::chrono::nanoseconds(15 * ((a + b + i) % 25));
+          if (i % 3 == 0) {
+            if (tm.try_lock_for(d)) {
+              got += 1;
+              tm.unlock();
+            }
+          } else if (i % 3 == 1) {
+            if (stm.try_lock_shared_for(d)) {
+              got += 10;
+              stm.unlock_shared();
+            }
+          } else if (rtm.try_lock_until(yaclib_std::chrono::steady_clock::now() + d)) {
+            got += 100;
+            rtm.unlock();
+          }
+        });
+      }
+      for (auto& t : ts) {
+        t.join();
+      }
+      {
+        // a timeout that really fires: the holder joins the waiter before it unlocks, so only the (virtual) deadline can
+        // end the wait; how much virtual time passes until then is part of the step's elapsed time
+        std::lock_guard hold{tm};
+        std::lock_guard hold2{stm};
+        yaclib_std::thread waiter{[&] {
+          const auto d = std::chrono::nanoseconds(10 + 7 * (b % 30));
+          got += (a % 2 == 0 ? tm.try_lock_for(d) : stm.try_lock_shared_for(d)) ? 1000 : 0;
+        }};
+        waiter.join();
+      }
+      return got;
+    }
     default: {  // weak-CAS increments under contention (spurious failures come from the PRNG)
       yaclib_std::atomic<int> x{0};
-      int retries = 0;
+      int retries = 0, once_ok = 0;
       const int k = 2 + a % 2;
       std::vector<yaclib_std::thread> ts;
       for (int i = 0; i < k; ++i) {
@@ -173,12 +222,20 @@ int Step(const int* r) {
               ++retries;
             }
           }
+          if ((a >> 1) % 2 == 1) {
+            // try-once weak CAS (no retry): a spurious failure may be the last thing this fiber - or the whole traced
+            // part - does with the injector, so state that outlives the failure shows up in the re-run / restore
+            for (int j = 0; j < 1 + (b / 3) % 3; ++j) {
+              int e = x.load(std::memory_order_relaxed);
+              once_ok += x.compare_exchange_weak(e, e + 1, std::memory_order_acq_rel, std::memory_order_relaxed) ? 1 : 0;
+            }
+          }
         });
       }
       for (auto& t : ts) {
         t.join();
       }
-      return x.load() * 100 + retries;
+      return x.load() * 100 + retries + once_ok * 7;
     }
   }
 }
@@ -240,7 +297,11 @@ Outcome RunProgram(const Case& c, std::size_t from, bool run_prefix, bool restor
     tr.on = true;
     std::uint64_t res = 0;
     for (std::size_t i = from; i < c.Records(); ++i) {
+      // the virtual clock is part of the execution: time that passes during a step must reproduce as well
+      const auto t0 = yaclib_std::chrono::steady_clock::now();
       res = vf::Mix64(res, static_cast<std::uint64_t>(Step(c.Rec(i))));
+      const auto dt = std::chrono::duration_cast<std::chrono::nanoseconds>(yaclib_std::chrono::steady_clock::now() - t0);
+      res = vf::Mix64(res, static_cast<std::uint64_t>(dt.count()));
     }
     tr.on = false;
     o.results = res;
@@ -330,7 +391,7 @@ class Repro final : public vf::Family {
   const char* Rule() const final {
     return "case = (seed, fault frequency 1..32, sleep time 1..500, CAS-fail frequency 0 or 2..20, pick width 1..20, tick "
            "1..1000, comparison mode, client program of 1..6 steps from {pool+strand, timed wait vs sleeping producer, "
-           "coroutines on a coroutine mutex, lock/condvar soup, contended weak-CAS loop}); oracle (metamorphic) = "
+           "coroutines on a coroutine mutex, lock/condvar soup, contended + try-once weak CAS, timed locks}); oracle (metamorphic) = "
            "trace of resumed fibers, random-count delta, injected-yield delta and program results equal between "
            "rerun-in-process / fresh process / restore of a recorded (random count, injector state) pair; "
            "non-trivial = traced part has >= 2 fibers, >= 1 injected yield and >= 20 fiber switches; distinct = "
@@ -346,7 +407,7 @@ class Repro final : public vf::Family {
                vf::Pick(0, 20),      vf::Pick(0, 1000), m < 7 ? 0 : (m < 9 ? 1 : 2)};
       const int n = vf::Pick(1, 7);
       for (int i = 0; i < n; ++i) {
-        c.prog.push_back(vf::Pick(0, 5));
+        c.prog.push_back(vf::Pick(0, 6));
         c.prog.push_back(vf::Pick(0, 64));
         c.prog.push_back(vf::Pick(0, 64));
       }
@@ -354,7 +415,7 @@ class Repro final : public vf::Family {
     });
   }
   std::string Describe(const Case& c) const final {
-    static const char* const kStep[] = {"pool+strand", "timed-wait", "coro-mutex", "lock+condvar", "weak-cas"};
+    static const char* const kStep[] = {"pool+strand", "timed-wait", "coro-mutex", "lock+condvar", "weak-cas", "timed-locks"};
     static const char* const kMode[] = {"rerun-in-process", "fresh-process", "restore(count,state)"};
     std::string s = std::string("mode=") + kMode[c.H(6) % 3] + " seed=" + std::to_string(c.H(0)) +
                     " freq=" + std::to_string(1 + c.H(1) % 32) + " sleep=" + std::to_string(1 + c.H(2) % 500) +
@@ -362,7 +423,7 @@ class Repro final : public vf::Family {
                     " tick=" + std::to_string(1 + c.H(5) % 1000) + " steps=[";
     for (std::size_t i = 0; i < c.Records(); ++i) {
       const int* r = c.Rec(i);
-      s += std::string(i != 0 ? " " : "") + kStep[r[0] % 5] + "(" + std::to_string(r[1]) + "," + std::to_string(r[2]) +
+      s += std::string(i != 0 ? " " : "") + kStep[r[0] % 6] + "(" + std::to_string(r[1]) + "," + std::to_string(r[2]) +
            ")";
     }
     return s + "]";
@@ -410,6 +471,19 @@ class Repro final : public vf::Family {
     v.hash = vf::Mix64(c.ProgHash(), first.trace_hash);
     static const char* const kMode[] = {"rerun-in-process", "fresh-process", "restore"};
     v.tags.push_back(kMode[mode]);
+    {
+      static const char* const kStepTag[] = {"step:pool+strand", "step:timed-wait", "step:coro-mutex", "step:lock+condvar",
+                                             "step:weak-cas", "step:timed-locks"};
+      bool seen[6] = {};
+      for (std::size_t i = 0; i < c.Records(); ++i) {
+        seen[c.Rec(i)[0] % 6] = true;
+      }
+      for (int k = 0; k < 6; ++k) {
+        if (seen[k]) {
+          v.tags.push_back(kStepTag[k]);
+        }
+      }
+    }
     char b[128];
     std::snprintf(b, sizeof b, "trace_len=%u switches=%u fibers=%u injected=%llu draws=%llu", first.trace_len,
                   first.switches, first.fibers, static_cast<unsigned long long>(first.injected_delta),
